@@ -137,18 +137,8 @@ fn run_scenario(case: &Case, exporter: Exporter) -> (Option<Transcript2>, Vec<Ev
             c.as_ref().and_then(|c| c.terminated().now_or_never()).map(|e| format!("{:?}", e.kind()))
         };
         let (ct, st) = (term(&conns.0), term(&conns.1));
-        // handshake datagrams carry an ECDSA signature whose DER length varies by a byte or two
-        // from run to run (library randomness): for long-header datagrams only the direction is
-        // compared, for 1-RTT datagrams the exact size
-        let wire: Vec<(u8, u16)> = w
-            .net
-            .0
-            .lock()
-            .unwrap()
-            .tap
-            .iter()
-            .map(|r| (r.dir as u8, if r.first_byte & 0x80 != 0 { 0 } else { r.len }))
-            .collect();
+        // (the simnet server key is Ed25519, so handshake datagram sizes are reproducible too)
+        let wire: Vec<(u8, u16)> = w.net.0.lock().unwrap().tap.iter().map(|r| (r.dir as u8, r.len)).collect();
         (t, ct, st, wire)
     });
     let tr = r.map(|(t, ct, st, wire)| Transcript2 {
